@@ -97,4 +97,11 @@ Proof.
     repeat (apply andb_true_iff; split); lia.
   - destruct (zat_neg_exact z W) as [E V]. rewrite <- E, R. apply P_vzb in V. rewrite V. reflexivity.
   - rewrite <- zat_try_from_zb_spec; exact R.
+  - rewrite <- zb_const_from_i64_spec; exact R.
+  - rewrite <- zb_const_from_u64_spec by (unfold in_u64, in_range in W; lia); exact R.
+  - rewrite <- zat_const_from_u64_spec by (unfold in_u64, in_range in W; lia); exact R.
+  - exact R.
+  - exact R.
+  - exact R.
+  - exact R.
 Qed.
